@@ -144,6 +144,8 @@ def compare_entry(exp, obs, rules, ctx):
         # documented normalisation: a function parameter without default is shown as '=None'
         if o_def not in (ABSENT, NoneStr):
             v("default", e_def, o_def, vkind(e_def), vkind(o_def))
+    elif (isinstance(e_def, int) and not isinstance(e_def, bool) and isinstance(o_def, float) and e_def == o_def and (exp["typ"] or "").replace("Optional[", "").rstrip("]") == "float"):
+        pass  # an int written as the default of a parameter *declared* float reads back as the equal float: the declared type decides (not a loss)
     elif not same_default(e_def, o_def):
         if rules.get("omit_default") and o_def == ABSENT:
             pass
